@@ -209,6 +209,14 @@ def hazard_alphabet():
     A.append(("convY>X4tilesB", t4bo))
     A.append(("dmaF>Zt1mid", dma_spec(0, 0x2000, 1, Z + 4 * 128, 6 * 128 - 64)))
     A.append(("dmaZt1mid>W", dma_spec(1, Z + 4 * 128, 1, W, 6 * 128 - 64)))
+    # a consumer that sees buffer X through tiles that rotate its rows (the first logical rows live at the end of the buffer) (same shape and layout as the producer's view,
+    # different tile boxes): its first block jobs read what the producer writes last
+    sw = conv_spec(X, Y)
+    sw["ifm"]["tiles"] = dict(h0=2, h1=2, w0=16, addr=[X + 14 * 128, 0, X, 0])
+    A.append(("convXswapped>Y", sw))
+    swo = conv_spec(Y, X)
+    swo["ofm"]["tiles"] = dict(h0=14, h1=14, w0=16, addr=[X + 2 * 128, 0, X, 0])
+    A.append(("convY>Xswapped", swo))
     rs = pool_spec("REDUCE_SUM", Y, X, k=(1, 1), s=(1, 1), hw=(4, 8), c=24)
     rs["ofm"] = fm((4, 8, 1), X)
     A.append(("rsumY>X_c24", rs))
